@@ -451,11 +451,34 @@ def main_check(mod, argv):
             known_hits[key] = len(items)
             continue
         reported.append((key, items))
-    for key, count in sorted(known_hits.items()):
-        print(f'KNOWN-FINDING: property={key[0]} rule={key[1]} {key[2]} ({count} occurrences in this batch)')
+    # every listed finding of this property is re-checked on its own recorded input, so that the KNOWN-FINDING line
+    # does not depend on whether this batch's seeds happened to hit it
     for k in known:
-        if k['property'] == mod.PROP and (k['property'], k['rule'], k['signature']) not in known_hits:
-            print(f'note: known finding {k["property"]}.{k["rule"]} [{k["signature"]}] was not hit in this batch')
+        if k['property'] != mod.PROP:
+            continue
+        key = (k['property'], k['rule'], k['signature'])
+        reproduced = None
+        if k.get('replay'):
+            try:
+                with open(os.path.join(VERIF, k['replay'])) as fh:
+                    kplan = json.load(fh)['plan']
+                if hasattr(mod, 'fixup'):
+                    mod.fixup(kplan)
+                GUARD.arm()
+                try:
+                    kres = run_isolated(mod, kplan, Stats()) if getattr(mod, 'ISOLATE', False) else mod.run(kplan, Stats())
+                finally:
+                    GUARD.disarm()
+                reproduced = any(v.rule == k['rule'] and v.signature == k['signature'] for v in kres.violations)
+            except Exception as exc:  # pylint: disable=broad-except
+                harness_errors.append(f'known finding {k["replay"]}: {type(exc).__name__}: {exc}')
+        count = known_hits.get(key, 0)
+        if reproduced or count:
+            print(f'KNOWN-FINDING: property={key[0]} rule={key[1]} {key[2]} '
+                  f'(recorded input {"reproduces" if reproduced else "not re-run"}; {count} further occurrences in this batch)')
+        else:
+            print(f'note: known finding {key[0]}.{key[1]} [{key[2]}] does not reproduce on this tree any more '
+                  f'(recorded input {k.get("replay")}); no occurrence in this batch')
     n_min = 0
     for key, items in reported:
         vseed, wire = items[0]
